@@ -28,3 +28,18 @@ impl Format {
         bytes.starts_with(&text::START).then_some(Self::Text)
     }
 }
+
+/// Verification hook: read a plain text spectrum from a caller-supplied buffered reader.
+#[cfg(feature = "verif")]
+pub fn verif_read_text<R>(reader: &mut R) -> std::io::Result<crate::Scs>
+where
+    R: std::io::BufRead,
+{
+    text::read_scs(reader)
+}
+
+/// Verification hook: expose format detection on raw bytes.
+#[cfg(feature = "verif")]
+pub fn verif_detect_format(bytes: &[u8]) -> Option<Format> {
+    Format::detect(bytes)
+}
